@@ -24,6 +24,9 @@ pub static CASES: AtomicU64 = AtomicU64::new(0);
 /// loom scheduling points ("branch" events of loom's runtime), counted by the tracing subscriber
 pub static BRANCHES: AtomicU64 = AtomicU64::new(0);
 
+/// accesses seen by a model that is tracked through `loom::cell::UnsafeCell` only (the `unsync` once-cell)
+pub static TRACKED_ACCESSES: AtomicU64 = AtomicU64::new(0);
+
 pub fn op() {
     OPS.fetch_add(1, Relaxed);
 }
@@ -38,9 +41,9 @@ pub fn case() {
 /// drops an increment, a getter that no longer looks at the once-cell) must stay a *verdict* of the
 /// oracles, not be mistaken for missing instrumentation.
 pub fn must_branch<R>(what: &str, f: impl FnOnce() -> R) -> R {
-    let b0 = BRANCHES.load(Relaxed);
+    let b0 = BRANCHES.load(Relaxed) + TRACKED_ACCESSES.load(Relaxed);
     let r = f();
-    if BRANCHES.load(Relaxed) == b0 {
+    if BRANCHES.load(Relaxed) + TRACKED_ACCESSES.load(Relaxed) == b0 {
         fail!("un-instrumented", "{what}: no loom scheduling point at all: the kernel's synchronisation is not running on loom");
     }
     r
